@@ -137,6 +137,9 @@ def harness_race(ctx, args, timeout=1800):
     except subprocess.TimeoutExpired:
         raise Broken("race harness %s timed out" % (args[:2],))
     if p.returncode != 0:
+        # the Go runtime aborts a process on unsynchronised map access: that IS the race, seen without the detector's help
+        if "fatal error: concurrent map" in p.stdout:
+            return p.stdout, True
         raise Broken("race harness %s failed (%d):\n%s" % (args[:3], p.returncode, p.stdout[-3000:]))
     return p.stdout, "WARNING: DATA RACE" in p.stdout
 
